@@ -20,7 +20,7 @@ Init == l = 1
 
 C4(n) == Enc32(n)
 VV == C4(VVendor)
-GSet == {<<C4(VCode("grouped")), NoVendor>>, <<C4(VGroup2), NoVendor>>, <<C4(VVCode("grouped")), VV>>, <<C4(VVGroup2), VV>>}
+GSet == {<<C4(VCode("grouped")), NoVendor>>, <<C4(VGroup2), NoVendor>>, <<C4(VVCode("grouped")), VV>>, <<C4(VVGroup2), VV>>, <<C4(279), NoVendor>>}
 
 \* payload comparison: g = record reported by the library, f = reference record
 PayloadOK(g, f) ==
